@@ -2,8 +2,8 @@
    extracted model (Limits.step) and prints one canonical result line.
 
    input   run <completed>,<per_user>,<incomplete>,<names>,<rules>,<replies>,<msgsize> <event> ...
-           event  C<uid> | H<c> | D<c> | R<c>,<hex>,<flags> | L<c>,<hex> | A<c>,<rule|x> | V<c>,<rule|x>
-                  | K<c>,<d>,<serial>,<0|1> | Y<d>,<c>,<serial> | T<c>,<serial> | E<c>,<tag> | M<c>,<hex16>
+           event  C<uid> | U<c> (authenticate) | H<c> | D<c> | R<c>,<hex>,<flags> | L<c>,<hex> | A<c>,<rule|x> | V<c>,<rule|x>
+                  | K<c>,<d>,<serial>,<0|1>,<reply serial or 0> | Y<d>,<c>,<serial> | T<c>,<serial> | E<c>,<tag> | M<c>,<hex16>
                   | Q<hex> (probe: ListQueuedOwners) | N (probe: ListNames) | S (probe: the model's counters)
    output  one block per event, separated by " | "; a block is "<conn>><msg>,<conn>><msg>,..." or "-"  *)
 open Model_limits
@@ -42,7 +42,7 @@ let msg_s = function
   | MNOC (k, o, n) -> "noc:" ^ key_s k ^ ":" ^ opt_c o ^ ":" ^ opt_c n
   | MFault -> "FAULT"
 let omsg_s = function
-  | OAccepted -> "accepted" | ONotAccepted -> "waiting"
+  | OAccepted -> "accepted" | ONotAccepted -> "waiting" | OAuthOk -> "authok"
   | OReg m -> msg_s m
   | OAck -> "ack"
   | OErr e -> "err:" ^ lerr_s e
@@ -65,13 +65,14 @@ let parse_item (t : string) : item =
   let parts = String.split_on_char ',' body in
   match t.[0], parts with
   | 'C', [u] -> Ev (Connect (ni u))
+  | 'U', [c] -> Ev (Auth (ni c))
   | 'H', [c] -> Ev (Hello (ni c))
   | 'D', [c] -> Ev (Disconnect (ni c))
   | 'R', [c; h; f] -> Ev (RequestName (ni c, bytes_of_hex h, ni f))
   | 'L', [c; h] -> Ev (ReleaseName (ni c, bytes_of_hex h))
   | 'A', [c; r] -> Ev (AddMatch (ni c, rule_of r))
   | 'V', [c; r] -> Ev (RemoveMatch (ni c, rule_of r))
-  | 'K', [c; d; s; nr] -> Ev (Call (ni c, ni d, ni s, nr = "1"))
+  | 'K', [c; d; s; nr; rs] -> Ev (Call (ni c, ni d, ni s, nr = "1", ni rs))
   | 'Y', [d; c; s] -> Ev (Reply (ni d, ni c, ni s))
   | 'T', [c; s] -> Ev (ReplyTimeout (ni c, ni s))
   | 'E', [c; t] -> Ev (Emit (ni c, ni t))
